@@ -15,6 +15,7 @@ import random
 import re
 import shutil
 import threading
+import time
 
 import vlib
 from vlib import Check, Scratch, Probe, ProbeDied, log
@@ -26,6 +27,7 @@ PID = "C15"
 LAYOUT_W = [('one', 2), ('two', 3), ('three', 3), ('hidden', 2)]
 
 SIDES = 0
+INFRA = re.compile(r'parseListDefs|NewMemoryBufferFromRangeCopy|file truncated|[Ff]ile format not recognized|cannot find -l|libddp\w+\.a: No such file|main\.o: No such file')
 _free = []
 _probes_lock = threading.Lock()
 
@@ -121,7 +123,14 @@ def run_side(scratch, d, files, O=1):
         return res
     exe = os.path.join(d, 'main')
     c = vlib.kddp_compile(main, exe, O=O, wall_s=180)
-    if c.timed_out:
+    tries = 0
+    while not c.timed_out and c.rc != 0 and INFRA.search(c.out + c.err) and tries < 3:
+        # kddp failed outside of any module of the program (e.g. the shared install directory is being rebuilt by a
+        # concurrent build.sh and lib/ddp_list_types_defs.ll is momentarily empty): tool failure, not the code's
+        tries += 1
+        time.sleep(3)
+        c = vlib.kddp_compile(main, exe, O=O, wall_s=180)
+    if c.timed_out or (c.rc != 0 and INFRA.search(c.out + c.err)):
         res['cls'] = 'inconclusive'
         return res
     if c.rc != 0 or not os.path.exists(exe):
@@ -378,7 +387,7 @@ def run(tier):
                            G, M, ev, {'control': fn.__name__, 'spec_mode': sm, 'mono': mono, 'expected': exp})
                 else:
                     chk.count('controls_ok')
-            log("[C15] t=%.0fs controls done" % (__import__('time').time() - chk.t0))
+            log("[C15] t=%.0fs controls done" % (time.time() - chk.t0))
             if controls_bad:
                 log("[C15] positive controls failed on the M side (printer/specialiser or build broken):", controls_bad[:3])
 
@@ -438,7 +447,7 @@ def run(tier):
                     todo.append((p, None, ev, G, M))
 
             # ---------------- attribution, confirmation (flaky?), minimisation, reporting
-            log("[C15] t=%.0fs batches done, %d disagreeing units to confirm" % (__import__('time').time() - chk.t0, len(todo)))
+            log("[C15] t=%.0fs batches done, %d disagreeing units to confirm" % (time.time() - chk.t0, len(todo)))
             buckets = {}
             max_min = 6 if tier == 'quick' else 12
 
@@ -484,7 +493,7 @@ def run(tier):
                 sig = {'kind': ev3['kind'], 'construct': mu.kind, 'features': ','.join(sig_features(mu, p)), 'detail': ev3['detail']}
                 report(chk, sig, G3, M3, ev3, p.meta([mu]))
             chk.extra['feature_coverage'] = dict(sorted(cover.items()))
-            log("[C15] t=%.0fs confirmation and minimisation done" % (__import__('time').time() - chk.t0))
+            log("[C15] t=%.0fs confirmation and minimisation done" % (time.time() - chk.t0))
 
             # ---------------- verdict pairs
             pairs = c15_pairs.gen_pairs(seed, npairs)
